@@ -538,8 +538,8 @@ def case_find_sample_size(rep):
         asns = {}
         for k, s in enumerate(sizes):
             a = _Rec()
-            a.find_sample_size = (lambda s: (lambda **kw: s))(s)
-            a.mvrs_to_data = lambda m, c: (None, 1)
+            a.find_sample_size = (lambda s: (lambda *aa, **kw: s))(s)
+            a.mvrs_to_data = lambda *aa, **kw: (None, 1)
             asns[str(k)] = a
         con.assertions = asns
         aud = _Rec()
@@ -1183,8 +1183,8 @@ def case_audit_find_sample_size(rep):
                         for ai in range(na):
                             a = _Rec()
                             a.proved = proved[k]
-                            a.find_sample_size = (lambda s: (lambda **kw: s))(est[k])
-                            a.mvrs_to_data = lambda m, c: (None, 1)
+                            a.find_sample_size = (lambda s: (lambda *aa, **kw: s))(est[k])
+                            a.mvrs_to_data = lambda *aa, **kw: (None, 1)
                             if not proved[k]:
                                 exp[con.id] = max(exp[con.id], est[k])
                             con.assertions[f"a{ai}"] = a
